@@ -339,6 +339,7 @@ func (c12) Gen(seed uint64, run int, tier string) *Plan {
 	p := &Plan{Engine: EngineVersion, Property: "C12", Seed: seed, Run: run, Tier: tier, Cfg: cfg, Knobs: map[string]int{},
 		Policy: simrt.Policy{Name: "atomic"}}
 	ls := c12ModelFromCfg(cfg)
+	edited := false
 	n := 20 + r.Intn(40)
 	if tier == "thorough" {
 		n += r.Intn(40)
@@ -348,6 +349,7 @@ func (c12) Gen(seed uint64, run int, tier string) *Plan {
 		switch {
 		case x < 6:
 			a := Action{Kind: "edit", S: c12DrawUA(r), T: strings.Join(c12DrawUris(r), ", "), SS: c12DrawHdrs(r, false), L: []int{r.Intn(len(ls))}}
+			edited = true
 			ls = c12Apply(ls, a)
 			p.Actions = append(p.Actions, a)
 		case x < 10 && len(ls) < 2:
@@ -356,6 +358,12 @@ func (c12) Gen(seed uint64, run int, tier string) *Plan {
 			p.Actions = append(p.Actions, a)
 		case x < 14:
 			p.Actions = append(p.Actions, Action{Kind: "task", B: r.Intn(8), D: 1 + r.Intn(50)})
+		case x < 16 && !edited:
+			// (only while no profile-defined listener has been edited: whether the profile or the
+			// operator's edit wins at the next start is not this property's business)
+			// the teamserver is restarted, possibly under a profile whose redirector setting changed:
+			// restored listeners follow the profile of the process that runs them
+			p.Actions = append(p.Actions, Action{Kind: "restart", D: r.Intn(2)})
 		default:
 			li := 0
 			if len(ls) > 1 && r.Intn(3) == 0 {
@@ -588,6 +596,7 @@ type c12State struct {
 	decoy []byte
 	reg   []*world.Demon // Demons that have a session on the teamserver
 	taskN int
+	trustXFF bool // the redirector setting of the profile the running process was started with
 }
 
 func (st *c12State) session(id uint32) *c12Session {
@@ -713,7 +722,7 @@ func (c12) Exec(p *Plan, dir string) *Result {
 		res.finish(w)
 		return res
 	}
-	st := &c12State{w: w, res: res, p: p, ls: c12ModelFromCfg(p.Cfg)}
+	st := &c12State{w: w, res: res, p: p, ls: c12ModelFromCfg(p.Cfg), trustXFF: p.Cfg.TrustXFF}
 	st.decoy, _ = os.ReadFile(filepath.Join(w.Dir, "teamserver/pkg/handlers/404.html"))
 	if db, err := sql.Open("sqlite3", "file:"+filepath.Join(w.Dir, "data/teamserver.db")+"?mode=ro"); err == nil {
 		db.SetMaxOpenConns(1)
@@ -734,6 +743,29 @@ func (c12) Exec(p *Plan, dir string) *Result {
 			st.add(a)
 		case "task":
 			st.task(a)
+		case "restart":
+			w.Crash()
+			if a.D == 1 {
+				w.Cfg.TrustXFF = !w.Cfg.TrustXFF
+				st.trustXFF = w.Cfg.TrustXFF // (the plan itself stays as generated: it is the replay file)
+				if err := w.RewriteProfile(); err != nil {
+					res.HarnessError = err.Error()
+					break
+				}
+				res.Probe("restart-with-other-redirector-setting")
+			}
+			if err := w.Boot(); err != nil {
+				res.Violate("C12", "restart-fails", "boot", "the teamserver does not come up again after a clean restart: "+err.Error(), w.Sim)
+				break
+			}
+			if o := w.NewOperator(p.Cfg.Operators[0].Name, p.Cfg.Operators[0].Password); !o.Login() {
+				res.HarnessError = "operator cannot log in after restart"
+				break
+			}
+			for _, l := range st.ls {
+				l.Up = w.Sim.Listening(fmt.Sprint(l.Port))
+			}
+			res.Probe("restarts")
 		case "req":
 			st.request(a)
 		}
@@ -937,7 +969,7 @@ func (st *c12State) request(a Action) {
 	}
 	status := call.Rec.Status()
 	desc := fmt.Sprintf("%s %q headers=%q peer=%s body=%s on listener %s {uris=%q ua=%q headers=%q resp=%q redirector=%v}",
-		method, uri, a.SS, peer, kindName, l.Name, l.Uris, l.UA, l.Hdrs, l.Resp, st.p.Cfg.TrustXFF)
+		method, uri, a.SS, peer, kindName, l.Name, l.Uris, l.UA, l.Hdrs, l.Resp, st.trustXFF)
 
 	// was the agent protocol reached?
 	reached, fully := false, false
@@ -1048,7 +1080,7 @@ func (st *c12State) request(a Action) {
 	// sender address of a new agent
 	if kind == 0 && sess != nil && !existed {
 		res.Probe("new-sessions")
-		trust := st.p.Cfg.TrustXFF
+		trust := st.trustXFF
 		switch {
 		case !trust:
 			if sess.ExternalIP != host {
